@@ -245,6 +245,8 @@ void build(Ctx& ctx)
 	// lengths around the 128 KiB copy chunk
 	for (uint32_t l : kBigLens) for (int lay : { 0, 4, 15 }) add({ Track{ 2, false, l, lay, 0, "" } });
 	for (uint32_t l1 : kBigLens) for (uint32_t l2 : kBigLens) add({ Track{ 0, false, l1, 4, 0, "" }, Track{ 3, false, l2, ctx.thorough ? 5 : 0, 0, "" } });
+	// a 200-track set (the index passes 3 KiB)
+	{ TrackSet s; for (int i = 0; i < 200; ++i) s.push_back(Track{ 0, false, uint32_t(i * 7 % 11), i % 16, 0, std::string(1, char(i % 2 ? 't' : 'T')) + std::to_string((i * 77) % 200) + std::string(1, char('a' + i % 26)) }); add(s); }
 	// a 12-track set
 	{ TrackSet s; for (int i = 0; i < 12; ++i) s.push_back(Track{ 0, false, uint32_t(i * 5 % 9), i % 16, 0, std::string(1, char((i % 2 ? 'k' : 'K') + i % 11)) + std::to_string(i) }); add(s); }
 }
